@@ -11,6 +11,10 @@ Section Spec.
   Definition seq_op (o : op T) : bool :=
     match o with OpIterNew | OpIterNext _ => false | _ => true end.
 
+  (* Grow(n) with n (read as a Go int, see Model.grow) beyond the largest allocation: make panics
+     whatever the current capacity is; the sequence is untouched *)
+  Definition grow_too_big (n : Z) : bool := alloc_max <? wrap64 n.
+
   Definition sstep (l : list T) (o : op T) : list T * out T :=
     match o with
     | OpPushFront x => (x :: l, OUnit)
@@ -22,7 +26,7 @@ Section Spec.
     | OpItem i => match zget l i with Some x => (l, OVal x) | None => (l, OPanic) end
     | OpSet i x => match zset l i x with Some l' => (l', OUnit) | None => (l, OPanic) end
     | OpLen => (l, OInt (zlen l))
-    | OpGrow _ => (l, OUnit)
+    | OpGrow n => if grow_too_big n then (l, OPanic) else (l, OUnit)
     | OpShrink n => if n <? 0 then (l, OPanic) else (l, OUnit)
     | OpIterate => (l, OList l)
     | OpIterNew => (l, OUnit)
@@ -47,8 +51,42 @@ Section Spec.
     | OpPopFront | OpPopBack | OpFront | OpBack => match l with [] => true | _ => false end
     | OpItem i | OpSet i _ => (i <? 0) || (zlen l <=? i)
     | OpShrink n => n <? 0
+    | OpGrow n => grow_too_big n
     | _ => false
     end.
+
+  (* ---- allocation: what an operation asks of make, in a given state of the implementation ---- *)
+  (* the length passed to make by the operation, if it allocates *)
+  Definition alloc_req (d : deque T) (o : op T) : option Z :=
+    match o with
+    | OpPushFront _ | OpPushBack _ =>
+        if len d =? cap d then Some (Z.max minSize (wrap64 (cap d * growMul))) else None
+    | OpGrow n => if cap d - len d <? wrap64 n then Some (wrap64 (cap d + wrap64 n)) else None
+    | OpShrink n =>
+        if n <? 0 then None else if n <? cap d - len d then Some (wrap64 (len d + n)) else None
+    | _ => None
+    end.
+
+  (* the operation's allocation fails (make panics) *)
+  Definition alloc_fails (d : deque T) (o : op T) : bool :=
+    match alloc_req d o with Some c => negb (make_ok c) | None => false end.
+
+  (* The ideal sequence has no capacity, so it cannot say which allocations of a size up to
+     alloc_max succeed.  [cost] bounds, from the operations alone, the number of slots a history can
+     ever make the implementation request: one per push, 2n per Grow(n) that can allocate; histories
+     [in_budget] never request more than alloc_max slots (every history a machine can run is). *)
+  Definition op_cost (o : op T) : Z :=
+    match o with
+    | OpPushFront _ | OpPushBack _ => 1
+    | OpGrow n => if (0 <? wrap64 n) && negb (grow_too_big n) then 2 * wrap64 n else 0
+    | _ => 0
+    end.
+
+  Fixpoint cost (ops : list (op T)) : Z :=
+    match ops with [] => 0 | o :: ops' => op_cost o + cost ops' end.
+
+  Definition in_budget (ops : list (op T)) : Prop :=
+    Z.max minSize (growMul * cost ops) <= alloc_max.
 
   (* does the operation add or remove an element (when it does not panic)? *)
   Definition adds_or_removes (o : op T) : bool :=
